@@ -1115,9 +1115,14 @@ def dmt_block_valid(arr: np.ndarray, dm_delays: np.ndarray) -> np.ndarray:
             f"samples, given {nsamps}."
         )
         raise ValueError(msg)
-    res = np.empty((ndms, valid_samples), dtype=arr.dtype)
+    # All DM trials share the window that is valid for every one of them
+    start_col = max_pos_shift
+    end_col = nsamps + min_neg_shift
+    res = np.zeros((ndms, valid_samples), dtype=arr.dtype)
     for idm in range(ndms):
-        res[idm] = np.sum(roll_block_valid(arr, dm_delays[idm]), axis=0)
+        for irow in range(arr.shape[0]):
+            shift = dm_delays[idm, irow]
+            res[idm] += arr[irow, start_col - shift : end_col - shift]
     return res
 
 
